@@ -508,4 +508,39 @@ theorem undetected_allOf (cx : Ctx) (cmp : Cmp) (n : Nat) (loc : Loc) (m1 m2 : L
     compareProperties cx cmp n loc { allOf := m1 } { allOf := m2 } st = .ok st := by
   rfl
 
+
+/-! ### objects without declared properties on ONE side (round-5 seeded change: the guard of CompareProperties) -/
+
+/-- a property-less object gains a required property: the step of CompareProperties that walks the NEW side's properties
+    appends `AddedRequiredProperty` — the guard of CompareProperties (`both sides without properties`) does not return
+    early here, because the new side has properties -/
+theorem first_required_property_step (n : Nat) (loc : Loc) (t1 : Schema) (props2 : List (String × PropDefn))
+    (acc : List (Loc × Code)) (kv : String × Schema) (h1 : t1.hasProps = false) (p : PropDefn)
+    (hl : lookup props2 kv.1 = some p) (hr : p.required = true) (childLoc : Loc)
+    (hc : addChildDiffNode n loc kv.1 kv.2 = .ok childLoc) :
+    addedStep n loc t1 props2 acc kv = .ok (acc ++ [(childLoc, Code.AddedRequiredProperty)]) := by
+  unfold addedStep
+  simp [h1, hc, hl, hr, Outcome.bind]
+
+/-- the guard fires only when BOTH sides declare no properties -/
+theorem compareProperties_guard (cx : Ctx) (cmp : Cmp) (n : Nat) (loc : Loc) (t1 t2 : Schema) (st : St)
+    (h : t1.hasProps = false ∧ t2.hasProps = false) : compareProperties cx cmp n loc t1 t2 st = .ok st := by
+  unfold compareProperties
+  simp [h.1, h.2]
+
+theorem AddedRequiredProperty_breaking_in_request :
+    getCompatibilityForChange Code.AddedRequiredProperty false = Compat.Breaking := by decide
+
+/-- the last property of an object goes (the new side has no property of that name — e.g. no properties at all): the step
+    of CompareProperties that walks the OLD side's properties appends `DeletedProperty`, whatever the new side holds -/
+theorem last_property_removed_step (cmp : Cmp) (n : Nat) (loc : Loc) (props2 : List (String × PropDefn))
+    (acc : St × List (Loc × Code)) (kv : String × PropDefn) (hl : lookup props2 kv.1 = none) (childLoc : Loc)
+    (hc : addChildDiffNode n loc kv.1 kv.2.schema = .ok childLoc) :
+    propStep cmp n loc props2 acc kv = .ok (acc.1, acc.2 ++ [(childLoc, Code.DeletedProperty)]) := by
+  unfold propStep
+  simp [hc, hl, Outcome.bind]
+
+theorem DeletedProperty_breaking_in_response :
+    getCompatibilityForChange Code.DeletedProperty true = Compat.Breaking := by decide
+
 end Gs.Props.C13
